@@ -126,19 +126,35 @@ impl Handler for JSXCurlyBracesHandler {
       match value {
         JSXAttrValue::JSXExprContainer(expr) => {
           if let JSXExpr::Expr(Expr::Lit(Lit::Str(lit_str))) = expr.expr {
+            // A JSX attribute string has no escapes: it ends at the next
+            // occurrence of its quote. Use the quote that doesn't occur in the
+            // value and offer no fix if both do.
+            let str_value = lit_str.value();
+            let quote = if !str_value.contains('"') {
+              Some('"')
+            } else if !str_value.contains('\'') {
+              Some('\'')
+            } else {
+              None
+            };
+            let fixes = quote
+              .map(|q| {
+                vec![LintFix {
+                  description: "Remove curly braces around JSX attribute value"
+                    .into(),
+                  changes: vec![LintFixChange {
+                    new_text: format!("{q}{str_value}{q}").into(),
+                    range: value.range(),
+                  }],
+                }]
+              })
+              .unwrap_or_default();
             ctx.add_diagnostic_with_fixes(
               value.range(),
               CODE,
               DiagnosticKind::CurlyAttribute.message(),
               Some(DiagnosticKind::CurlyAttribute.hint().to_string()),
-              vec![LintFix {
-                description: "Remove curly braces around JSX attribute value"
-                  .into(),
-                changes: vec![LintFixChange {
-                  new_text: format!("\"{}\"", lit_str.value()).into(),
-                  range: value.range(),
-                }],
-              }],
+              fixes,
             );
           }
         }
